@@ -24,6 +24,7 @@ type c06Case struct {
 	Declare  string `json:"declare"`
 	Backend  string `json:"backend"`
 	ExtAllow bool   `json:"ext_allow,omitempty"` // an extension answers "allow" to every MAIL and RCPT: that overrides the domain rules, never the size limit
+	OneLine  bool   `json:"one_line,omitempty"`  // the body is one unfolded line (no line-length limit applies to DATA)
 	Discard  bool   `json:"discard,omitempty"`   // the recipient's domain is not stored (accepted, then dropped): the limit applies all the same
 }
 
@@ -66,6 +67,9 @@ func c06Exec(c *fw.Ctx, cas c06Case) (nontrivial bool) {
 		c.Violate(key, fmt.Sprintf("%s\nlimit=%d data=%d bytes (LF-normalised) declared SIZE=%q backend=%s\n  %s", detail, cas.Limit, cas.Size, cas.Declare, cas.Backend, strings.Join(d.Log, "\n  ")), cas)
 	}
 	body := c06Body(cas.Size)
+	if cas.OneLine && cas.Size >= 2 {
+		body = strings.Repeat("x", cas.Size-1) + "\r\n"
+	}
 	sLF := len(sys.NormLE(body))
 	if body != "" {
 		sLF++ // the final line terminator counts as data
@@ -203,11 +207,11 @@ func c06Run(c *fw.Ctx) {
 					if !c.Mine(n) {
 						continue
 					}
-					for _, variant := range []string{"", "discard", "ext-allow"} {
+					for _, variant := range []string{"", "discard", "ext-allow", "one-line"} {
 						if variant != "" && be == "file" {
 							continue // these variants do not depend on the back-end
 						}
-						cas := c06Case{Limit: L, Size: sz, Declare: decl, Backend: be, Discard: variant == "discard", ExtAllow: variant == "ext-allow"}
+						cas := c06Case{Limit: L, Size: sz, Declare: decl, Backend: be, Discard: variant == "discard", ExtAllow: variant == "ext-allow", OneLine: variant == "one-line"}
 						if !c.Begin(func() any { return cas }) {
 							continue
 						}
